@@ -3,6 +3,7 @@
 package container
 
 import (
+	"errors"
 	"os/exec"
 
 	"github.com/criyle/go-sandbox/pkg/unixsocket"
@@ -56,6 +57,10 @@ func verifReplyKind(r *reply, msg unixsocket.Msg) string {
 
 // verifEndCmd / verifEndReply close a verifBegin section around socket.SendMsg
 func verifEndCmd(side string, c *cmd, err error) {
+	if errors.Is(err, errPayloadTooLarge) {
+		verifhook.End(side, "sendbig", "k", verifCmdKind(c))
+		return
+	}
 	if err != nil {
 		verifhook.End(side, "senderr", "k", verifCmdKind(c))
 		return
